@@ -217,3 +217,188 @@ package bgp
 //@   modifies p.*
 //@   loop 0 decreases len(value)
 //@   ensures err != nil ==> freshMsgErr(err)
+
+// ---------------------------------------------------------------------------------------------
+// marshalling-option helpers (read-only)
+//@ props C05 C04 C11
+//@ func IsAddPathEnabled
+//@   pure
+//@   modifies nothing
+//@ func IsMRTSerialization
+//@   pure
+//@   modifies nothing
+//@ func IsExtendedMessageSerialization
+//@   pure
+//@   modifies nothing
+//@ func isAttributePresent
+//@   pure
+//@   modifies nothing
+
+// ---------------------------------------------------------------------------------------------
+// NLRI core
+//@ props C05 C04
+
+// from C05: "no unbounded loop": the MP_REACH / MP_UNREACH / UPDATE loops advance by Len(), so Len() >= 1
+//@ interface NLRI.Len
+//@   pure
+//@   ensures result >= 1
+//@   unverified LabeledVPNIPAddrPrefix EVPNNLRI VPLSNLRI SRPolicyNLRI EncapNLRI FlowSpecNLRI OpaqueNLRI LsAddrPrefix MUPNLRI FlowSpecIPv4Unicast FlowSpecIPv6Unicast FlowSpecIPv4VPN FlowSpecIPv6VPN FlowSpecL2VPN
+
+//@ func (*IPAddrPrefixDefault).decodePrefix
+//@   modifies r.*
+//@   ensures err != nil ==> freshMsgErr(err)
+//@ func (*IPAddrPrefix).decodeFromBytes
+//@   modifies r.*
+//@   ensures err != nil ==> freshMsgErr(err)
+//@ func (*IPAddrPrefix).Len
+//@   inline
+
+//@ func (*MPLSLabelStack).Len
+//@   inline
+//@ func (*MPLSLabelStack).DecodeFromBytes
+//@   modifies l.*
+//@   loop 0 decreases len(data)
+//@   ensures err != nil ==> freshMsgErr(err)
+
+//@ func (*DefaultRouteDistinguisher).Len
+//@   inline
+//@ interface RouteDistinguisherInterface.Len
+//@   pure
+//@   ensures result == 8
+//@ func NewRouteDistinguisherTwoOctetAS
+//@   modifies nothing
+//@   ensures result != nil && fresh(result)
+//@ func NewRouteDistinguisherIPAddressAS
+//@   modifies nothing
+//@   ensures result0 == nil || fresh(result0)
+//@ func NewRouteDistinguisherFourOctetAS
+//@   modifies nothing
+//@   ensures result != nil && fresh(result)
+//@ func GetRouteDistinguisher
+//@   requires len(data) >= 8
+//@   modifies nothing
+//@   ensures result != nil
+
+//@ func (*LabeledIPAddrPrefix).decodeFromBytes
+//@   modifies l.*
+//@   ensures err != nil ==> freshMsgErr(err)
+//@ func (*LabeledVPNIPAddrPrefix).decodeFromBytes
+//@   modifies l.*
+//@   ensures err != nil ==> freshMsgErr(err)
+
+//@ func NLRIFromSlice
+//@   modifies nothing
+//@   assume-callee-frames
+//@   ensures err == nil ==> nlri != nil
+//@   ensures err != nil ==> nlri == nil
+
+// ---------------------------------------------------------------------------------------------
+// MP_REACH / MP_UNREACH, extended communities
+//@ func (*PathAttributeMpReachNLRI).DecodeFromBytes
+//@   modifies p.*
+//@   loop 0 decreases len(value)
+//@   ensures err != nil ==> freshMsgErr(err)
+//@ func (*PathAttributeMpUnreachNLRI).DecodeFromBytes
+//@   modifies p.*
+//@   loop 0 decreases len(value)
+//@   ensures err != nil ==> freshMsgErr(err)
+
+//@ func NewIPv4AddressSpecificExtended
+//@   modifies nothing
+//@   ensures ip.Is4() ==> result1 == nil && result0 != nil && fresh(result0)
+//@   ensures result1 == nil ==> result0 != nil
+//@   ensures result1 != nil ==> result0 == nil
+//@ func NewLinkBandwidthExtended
+//@   modifies nothing
+//@   ensures result != nil && fresh(result)
+//@ func NewTwoOctetAsSpecificExtended
+//@   modifies nothing
+//@   ensures result != nil && fresh(result)
+//@ func NewFourOctetAsSpecificExtended
+//@   modifies nothing
+//@   ensures result != nil && fresh(result)
+//@ func NewOpaqueExtended
+//@   modifies nothing
+//@   ensures result != nil && fresh(result)
+//@ func parseOpaqueExtended
+//@   requires len(data) >= 8
+//@   modifies nothing
+//@   ensures result1 == nil && result0 != nil
+
+//@ func NewRedirectIPv4AddressSpecificExtended
+//@   modifies nothing
+//@   ensures ipv4.Is4() ==> result1 == nil && result0 != nil
+//@   ensures result1 != nil ==> result0 == nil
+//@ func NewMUPIPv4AddressSpecificExtended
+//@   modifies nothing
+//@   ensures ip.Is4() ==> result1 == nil && result0 != nil
+//@   ensures result1 != nil ==> result0 == nil
+//@ func parseEvpnExtended
+//@   requires len(data) >= 8
+//@   modifies nothing
+//@   assume-callee-frames
+//@   ensures result1 != nil ==> freshMsgErr(result1)
+//@ func parseGenericTransitiveExperimentalExtended
+//@   requires len(data) >= 8
+//@   modifies nothing
+//@   assume-callee-frames
+//@   ensures result1 != nil ==> freshMsgErr(result1)
+//@ func parseMUPExtended
+//@   requires len(data) >= 8
+//@   modifies nothing
+//@   assume-callee-frames
+//@   ensures result1 != nil ==> freshMsgErr(result1)
+
+//@ func ParseExtended
+//@   modifies nothing
+//@   assume-callee-frames
+//@   ensures result1 != nil ==> freshMsgErr(result1)
+//@ func (*PathAttributeExtendedCommunities).DecodeFromBytes
+//@   modifies p.*
+//@   loop 0 decreases len(value)
+//@   ensures err != nil ==> freshMsgErr(err)
+
+// ---------------------------------------------------------------------------------------------
+// UPDATE
+//@ func GetPathAttribute
+//@   modifies nothing
+//@   ensures result1 == nil ==> result0 != nil
+//@   ensures result1 != nil ==> freshMsgErr(result1)
+//@ func getBGPUpdateAttributes
+//@   modifies nothing
+//@   ensures result != nil
+
+// from C05/C04: an attribute occupies at least its 3-octet header; errors of attribute decoders are *MessageError
+// (the UPDATE decoder type-asserts them without a check)
+//@ interface PathAttributeInterface.Len
+//@   pure
+//@   ensures result >= 3 && result <= 65539
+//@ interface PathAttributeInterface.GetType
+//@   pure
+//@ interface PathAttributeInterface.DecodeFromBytes
+//@   modifies self.*
+//@   ensures result != nil ==> freshMsgErr(result)
+//@   unverified PathAttributeTunnelEncap PathAttributePmsiTunnel PathAttributeIP6ExtendedCommunities PathAttributeAigp PathAttributeLs PathAttributePrefixSID
+
+//@ func (*MessageError).Stronger
+//@   requires typeOf(err) == (*MessageError) ==> err.(*MessageError) != nil
+//@   pure
+//@   modifies nothing
+//@   ensures result <==> (err == nil || (typeOf(err) == (*MessageError) && e.ErrorHandling > err.(*MessageError).ErrorHandling))
+
+//@ func (*BGPUpdate).DecodeFromBytes
+//@   requires len(data) <= 65535
+//@   modifies msg.*
+//@   loop 0 invariant len(data) >= int(routelen) && len(data) <= 65535
+//@   loop 0 decreases int(routelen)
+//@   loop 1 invariant len(data) >= int(pathlen) && len(data) <= 65535
+//@   loop 1 invariant strongestError == nil || isMsgErr(strongestError)
+//@   loop 1 decreases int(pathlen)
+//@   loop 2 invariant restlen <= len(data)
+//@   loop 2 decreases restlen
+
+//@ func parseBody
+//@   requires h != nil && len(data) <= 65535
+//@   modifies nothing
+//@ func ParseBGPMessage
+//@   modifies nothing
